@@ -293,7 +293,9 @@ func (b *Builder) Int64(v int64) *Builder {
 func (b *Builder) Ident(s string) *Builder {
 	if s != "" {
 		b.WriteByte(b.QuoteOpening)
-		b.WriteString(s)
+		// A quote character inside the name is written twice, as MySQL,
+		// PostgreSQL and SQLite read quoted identifiers.
+		b.WriteString(strings.ReplaceAll(s, string(b.QuoteClosing), string([]byte{b.QuoteClosing, b.QuoteClosing})))
 		b.WriteByte(b.QuoteClosing)
 		b.WriteByte(' ')
 	}
